@@ -5,14 +5,13 @@ import vlib
 
 THEOREMS_C15 = ["Slock.C15V." + t for t in (
     "set_refines", "unset_refines", "incr_refines", "append_refines", "shift_refines", "push_refines", "pop_refines",
-    "refused_unchanged", "wf_cell_len_prefix", "pipeline_partial",
-    "pipeline_not_sequential_counterexample", "incr_short_operand_props_counterexample",
-    "shift_beyond_length_counterexample", "pop_zero_length_element_counterexample")] + ["Slock.Value.consts_tie"]
+    "processFrame_returns", "refused_unchanged", "parser_refused_unchanged", "wf_cell_len_prefix",
+    "pipeline_partial", "pipeline_empty",
+    "pipeline_not_sequential_counterexample", "pop_zero_length_element_counterexample",
+    "shift_beyond_length_repaired", "incr_short_operand_props_repaired", "incr_short_operand_no_cell_repaired")] + ["Slock.Value.consts_tie"]
 THEOREMS_C13 = ["Slock.C13V." + t for t in (
-    "no_panic_frame_header", "short_frame_panics", "no_panic_set_unset_unknown", "no_panic_append", "no_panic_push",
-    "no_panic_incr", "no_panic_shift", "shift_beyond_length_panics", "no_panic_value_offset",
-    "incr_short_operand_no_cell_panics", "shift_beyond_length_witness_panics", "property_flag_short_frame_panics",
-    "property_length_beyond_frame_panics", "pipeline_malformed_subframe_panics", "pop_malformed_array_panics")]
+    "no_panic", "sane_preserved", "no_panic_run", "no_panic_run_wf", "no_panic_process_lock_data",
+    "parser_establishes_invariant", "short_frame_refused", "former_panic_witnesses_return")]
 THEOREMS = THEOREMS_C15 + THEOREMS_C13
 FINISH = {"level": "proof", "assumptions": [
     "a Go slice is modelled as (len bytes, bytes up to cap); top-level request frames have cap = len (Stream.ReadBytesFrame uses make)",
@@ -20,7 +19,7 @@ FINISH = {"level": "proof", "assumptions": [
     "EXECUTE sub-commands are outside the core subset (cell unchanged, as in the Go code); the harness never reaches lock.protocol"]}
 
 
-def read_monitor(ctx, outdir, mode):
+def read_monitor(ctx, outdir, mode, want=None):
     p = os.path.join(outdir, mode + ".mon")
     seen = {}
     if os.path.exists(p):
@@ -29,7 +28,8 @@ def read_monitor(ctx, outdir, mode):
             if line:
                 m = json.loads(line)
                 seen[m["signature"]] = seen.get(m["signature"], 0) + 1
-                ctx.add_violation(m["what"], m["signature"], m["replay"])
+                if want is None or want(m["signature"]):
+                    ctx.add_violation(m["what"], m["signature"], m["replay"])
     return seen
 
 
@@ -77,11 +77,13 @@ def build_value_harness(ctx):
     return exe
 
 
-def run_value(ctx):
+def run_value(ctx, want=None, which=("C15", "C13")):
     ok = ctx.lake_build(["Slock.Properties.C15Value", "Slock.Properties.C13Value"])
     if ok:
-        ctx.audit("Slock.Properties.C15Value", THEOREMS_C15)
-        ctx.audit("Slock.Properties.C13Value", THEOREMS_C13)
+        if "C15" in which:
+            ctx.audit("Slock.Properties.C15Value", THEOREMS_C15)
+        if "C13" in which:
+            ctx.audit("Slock.Properties.C13Value", THEOREMS_C13)
         if ctx.tier == "thorough":
             ctx.leanchecker("Slock.Properties.C15Value")
             ctx.leanchecker("Slock.Properties.C13Value")
@@ -96,7 +98,7 @@ def run_value(ctx):
         if not outdir:
             continue
         dis = ctx.diff(outdir, "value", classify=classify)
-        for k, v in read_monitor(ctx, outdir, "value").items():
+        for k, v in read_monitor(ctx, outdir, "value", want).items():
             sigs[k] = sigs.get(k, 0) + v
         if dis:
             d = dis[0]
